@@ -1,29 +1,29 @@
-\* C03 fault-free: two pollers, r1 is stopped (kill and reroute)
+\* fixed finding (C06): the batch path did not index arguments -> same-key invocations invisible to the lookup (counterexample only with BatchIndexes = FALSE)
 SPECIFICATION Spec
 CONSTANTS
   Inv = {"i1", "i2"}
   Runner = {"r1", "r2"}
   Client = {"c1"}
-  Key <- KeyNone
-  Mode = "disabled"
+  Key <- KeySame
+  Mode = "keys"
   RerouteOnCC = TRUE
   MaxRetries = 1
-  Outcome <- RetryOk
-  Submissions <- SubMix
-  PollN = 1
-  Pollers = {"r1", "r2"}
+  Outcome <- AllOk
+  Submissions <- SubBatch
+  PollN = 2
+  Pollers = {"r1"}
   Recoverers = {}
-  Stoppable = {"r1"}
+  Stoppable = {}
   MaxCrashes = 0
   TrackHist = FALSE
   RecoveryAbortsOnLostRace = FALSE
-  IndexBeforeRoute = TRUE
+  IndexBeforeRoute = FALSE
 CONSTRAINT Bounded
 INVARIANT TypeOK
 INVARIANT NoStranded
+INVARIANT OneRunningPerKey
 INVARIANT SuccessHasResult
 INVARIANT FailedHasException
 INVARIANT ChangeLogIsPath
-INVARIANT StoppedLeavesNothing
 PROPERTY CoreFollowsEdge
 PROPERTY CoreFinalAbsorbing
